@@ -199,6 +199,17 @@ T('combo-default-shared', 'A ::= SEQUENCE { lo Low, hi High }\n'
 BY_ID = {t['id']: t for t in TEMPLATES}
 
 
+# one type name defined differently in two modules whose names sort in the opposite order of the text
+# (a dictionary written by pformat and read back iterates its modules alphabetically)
+_TWO = ('Zulu DEFINITIONS IMPLICIT TAGS ::= BEGIN\nMsg ::= SEQUENCE { body [0] Body, n INTEGER (0..7) }\n'
+        'Body ::= CHOICE { a BOOLEAN, b INTEGER (0..7) }\nEND\n'
+        'Alpha DEFINITIONS IMPLICIT TAGS ::= BEGIN\nReq ::= SEQUENCE { body [0] Body, n INTEGER (0..7) }\n'
+        'Body ::= SEQUENCE { x BOOLEAN }\nEND\n')
+TEMPLATES.append(dict(id='two-modules-same-name-choice', text=_TWO, type='Msg', module='Zulu', feats={'modules'}, tie=None, quick={}))
+TEMPLATES.append(dict(id='two-modules-same-name-seq', text=_TWO, type='Req', module='Alpha', feats={'modules'}, tie=None, quick={}))
+BY_ID = {t['id']: t for t in TEMPLATES}
+
+
 def select(feats=None, ids=None, exclude=()):
     out = []
     for t in TEMPLATES:
